@@ -47,6 +47,8 @@ type Fabric struct {
 	DisconnectFaults bool
 	// SendFaults lists the non-plain outcomes of a send gate.
 	SendFaults []string
+	// SendFaultPairs, when set, restricts send faults to these "from>to" pairs.
+	SendFaultPairs map[string]bool
 	// ConnectFaults lists the non-plain outcomes of a connect gate.
 	ConnectFaults []string
 	// DeliverFaults lists the non-plain outcomes of a deliver event.
@@ -529,6 +531,9 @@ func (e *writeEnd) Write(b []byte) (int, error) {
 	f.mu.Lock()
 	part := f.Partition[pairKey(s.from.name, s.to.name)]
 	outs := append([]string{"ok"}, f.SendFaults...)
+	if f.SendFaultPairs != nil && !f.SendFaultPairs[s.from.name+">"+s.to.name] {
+		outs = outs[:1]
+	}
 	stalledPair := f.StalledPairs[s.from.name+">"+s.to.name]
 	f.mu.Unlock()
 	o := f.w.Park("send", "send|"+s.id, outs...)
